@@ -1169,6 +1169,10 @@ class Delegate(TraitType):
     ):
         """ Creates a Delegate trait.
         """
+        # The listener pattern (see ``get_delegate_pattern``) needs the
+        # prefix as given, including any trailing "*".
+        metadata["_prefix"] = prefix
+
         if prefix == "":
             prefix_type = 0
         elif prefix[-1:] != "*":
@@ -1181,7 +1185,6 @@ class Delegate(TraitType):
                 prefix_type = 3
 
         metadata["_delegate"] = delegate
-        metadata["_prefix"] = prefix
         metadata["_listenable"] = listenable
 
         super().__init__(**metadata)
